@@ -141,7 +141,7 @@ def main():
     known = [k for k in load_known() if k.get('property') == pid and k.get('status') == 'open']
     results, all_obls, undecided = [], [], []
     violations, known_hits = [], []
-    trusted_base, assumptions = set(), []
+    trusted_base, assumptions, imported = set(), [], set()
     fn_rows, solver_ms = [], {}
     norm_fired = {}
     extraction = {}
@@ -202,7 +202,8 @@ def main():
             new = [c for c in cens if c not in allow]
             if new:
                 undecided.append('%s: trusted base grew (not in units/%s/trusted.json): %s' % (u, u, '; '.join(new[:4])))
-        trusted_base.update('%s: %s' % (u, c) for c in cens)
+        trusted_base.update(c for c in cens if not c.startswith('imported contract'))
+        imported.update('%s <- %s' % (u, c[len('imported contract (proved in its home unit): '):]) for c in cens if c.startswith('imported contract'))
         vac['clones'] += vres[0]
         vac['failed_as_required'] += vres[1]
         if vres[2]:
@@ -264,6 +265,7 @@ def main():
         'checker_cmd': ' && '.join(cmds) if cmds else 'none',
         'trusted_base': sorted(trusted_base),
         'samples': samples,
+        'imported_contracts': len(imported),
         'functions_under_contract': fn_rows,
         'obligations_by_function': {},
         'backends': tool_versions(),
